@@ -59,7 +59,7 @@ def _inject(ch):
     fault = copy.deepcopy(prog)
     twin = copy.deepcopy(prog)
     env_f, env_t = {}, {}
-    kind = ch.pick(["index", "index", "index", "alias-index", "alias-slice", "not-register", "not-register", "register-size"])
+    kind = ch.pick(["index", "index", "index", "alias-index", "alias-slice", "not-register", "not-register", "register-size"] + (["register-shrunk"] if n >= 2 else []))
     via = None
     stage = "parse"
     bad = ch.pick(_bad_indices(tsize))
@@ -88,6 +88,22 @@ def _inject(ch):
         stage = "let"
         add_section(fault, ["ix", regname, 0])
         add_section(twin, ["ix", regname, 0])
+    elif kind == "register-shrunk":
+        # the INDEX is a literal and fine for the declared size; the register (sized by a let)
+        # is made smaller - by an override, or by the declared value itself
+        via = ch.pick(["override", "override", "let"])
+        small = ch.pick([n - 1, max(1, n - 2), 1])
+        desc = {"size": n, "shrunk-to": small, "index": n - 1}
+        for p in (fault, twin):
+            p["lets"].append(["zz", n])
+            p["reg"] = [regname, "zz"]
+            p["body"].append(["sub", None, [["g", "X", [["ix", regname, n - 1]]]]])
+        if via == "override":
+            env_f = {"zz": small}
+            env_t = {"zz": n + ch.int(0, 2)}
+        else:
+            fault["lets"][-1] = ["zz", small]
+        stage = "let"
     elif kind == "index":
         via = ch.pick(["let", "override", "macro-index"] if fractional else ["literal", "let", "override", "macro-index", "macro-array"])
         desc = {"target": tname, "size": tsize, "bad": bad, "good": good}
@@ -240,7 +256,7 @@ def references(case):
         # against is let-valued (the reference tracks what the offending check depends on)
         if STAGES.index(inv.stage) > STAGES.index(case["stage"]):
             case = dict(case, stage=inv.stage)
-    expected_kinds = {"index": {"index", "non-integer"}, "alias-index": {"index", "non-integer"}, "alias-slice": {"slice"}, "not-register": {"not-a-register", "undefined"}, "register-size": {"register-size", "non-integer"}}
+    expected_kinds = {"index": {"index", "non-integer"}, "alias-index": {"index", "non-integer"}, "alias-slice": {"slice"}, "not-register": {"not-a-register", "undefined"}, "register-size": {"register-size", "non-integer"}, "register-shrunk": {"index", "slice"}}
     if ref_kind not in expected_kinds.get(case["kind"], ()):
         raise Skip()  # not the injected fault any more (only happens to shrunk / hand-edited cases)
     b_ = case["desc"].get("bad")
